@@ -452,6 +452,14 @@ def main():
         info[name] = meta
         if write_if_changed(os.path.join(OUT, name), text):
             changed.append(name)
+    # the source-to-Lean translation of the integer kernels (tools/c2lean.py): one file per area
+    sys.path.insert(0, os.path.dirname(os.path.abspath(__file__)))
+    import c2lean_specs
+    texts, srcinfo = c2lean_specs.generate()
+    for area, text in texts.items():
+        if write_if_changed(os.path.join(OUT, 'Src%s.lean' % area), text):
+            changed.append('Src%s.lean' % area)
+    info['Src'] = srcinfo
     import json
     print(json.dumps({'changed': changed, 'info': info}, default=str))
     return 0
